@@ -1205,3 +1205,39 @@ silent('refactor-extract-default-merge', ['C09', 'C10', 'C11', 'C12'],
 
     def check_rules(self, raise_on_violation=False):
         \"\"\"Look for rule definitions that are obviously incorrect.\"\"\"""")])
+silent('refactor-expand-match-helper', ['C04', 'C05', 'C14'],
+       [(C, """class Check(BaseCheck):
+    def __init__(self, kind, match):
+        self.kind = kind
+        self.match = match
+""", """class Check(BaseCheck):
+    def __init__(self, kind, match):
+        self.kind = kind
+        self.match = match
+
+    def _expand_match(self, target):
+        try:
+            return self.match % target
+        except KeyError:
+            return None
+"""), (C, """        try:
+            match = self.match % target
+        except KeyError:
+            # While doing RoleCheck if key not
+            # present in Target return false
+            return False
+        if 'roles' in creds:""", """        match = self._expand_match(target)
+        if match is None:
+            return False
+        if 'roles' in creds:"""), (C, """        try:
+            match = self.match % target
+        except KeyError:
+            # While doing GenericCheck if key not
+            # present in Target return false
+            return False
+        try:
+            # Try to interpret self.kind as a literal""", """        match = self._expand_match(target)
+        if match is None:
+            return False
+        try:
+            # Try to interpret self.kind as a literal""")])
